@@ -240,6 +240,10 @@ def check_misuse(ctx, case):
     elif form == "two-structures":
         with jaxtyped("context"):
             got = obs.verdict((a3, a4), PyTree[PyTree[base, "S"], "T"])
+    elif form == "two-structures-late":
+        # the same ambiguity, but the first leaf of the inner tree is accepted without its '?' axis ever being looked at (an int)
+        with jaxtyped("context"):
+            got = obs.verdict((7, a3, a4), PyTree[PyTree[Union[int, base], "S"], "T"])
     elif form == "decorated-no-structure":
         def f(x):
             pass
@@ -377,7 +381,7 @@ def run(ctx):
     ctx.hyp(cases, max_examples=ctx.n(500, 3000))
 
     @given(st.fixed_dictionaries({
-        "misuse": st.sampled_from(["bare", "no-structure", "two-structures", "decorated-no-structure"]),
+        "misuse": st.sampled_from(["bare", "no-structure", "two-structures", "decorated-no-structure", "two-structures-late"]),
         "spec": st.sampled_from(["?foo", "*?foo", "a ?foo", "?a ?foo", "#?foo 3", "?foo ..."]),
         "checker": st.sampled_from(["typeguard", "beartype"]),
     }))
